@@ -35,12 +35,12 @@ checks = {
  "C09": dict(cat="exploration", tech=T_SEQ + " over the opened-up configuration space (zero frames, zero-slot classes, zeroed policy, any tree id, targeted gets with slots)",
     text="Every call of every history runs under catch_unwind; a panic (message + file = signature) is a violation. Aborts are seen as worker deaths and attributed to the announced run.",
     note="init modes Recover/None over foreign buffers are exercised by the C05/C07 checks", ref="DESIGN.md §4 C09"),
- "C10": dict(cat="exploration", tech=T_SEQ + " with drain-then-probe steps; also probes after the join of concurrent interleavings (K3-K5)",
-    text="At quiescent points: drain, then a base-order allocation must not fail while the model has a free frame outside offline trees, and a targeted allocation must succeed iff the model says the block is free and online.",
+ "C10": dict(cat="exploration", tech=T_SEQ + " with drain-then-probe steps; also probes after the join of concurrent interleavings (K3-K5, K7, K9)",
+    text="At quiescent points: drain, then a base-order allocation must not fail while the model has a free frame outside offline trees, and a targeted allocation must succeed iff the model says the block is free and online. After concurrent runs additionally: base frames until out-of-memory must hand out every frame the model has free (when the tree array shows a counter below the lower level's count).",
     note="policies that return Invalid are excluded, as the property states", ref="DESIGN.md §4 C10"),
  "C11": dict(cat="exploration", tech=T_SEQ + " restricted to one slot, base order, no drains; exhaustion phases followed by frees through the slot or without one",
     text="Out-of-memory is only accepted when the model has no free frame; boundary where exactly the needed frames sit in the global counter of the slot's own reserved tree is reached in almost every run.",
-    note="2-4 trees", ref="DESIGN.md §4 C11"),
+    note="2-4 trees; two runs in three start from free-all, one from allocate-all (frames of the initial huge blocks are freed one by one); rare restarts in place", ref="DESIGN.md §4 C11"),
  "C12": dict(cat="exploration", tech="deterministic simulation harness as state-reachability probe: structured allocation patterns are built through the real lower-level API, then a directed search (Lower::get) is issued for every order from a hint in every row and judged by the model",
     text="A failed search is a violation iff the model has an aligned free block of that order in the tree; a success must mark exactly that block (full comparison on a sample of probes, counters on all).",
     note="single-thread by the property's own restriction; needs verif::row_id to build the hint", ref="DESIGN.md §4 C12"),
@@ -51,7 +51,7 @@ checks = {
     text="Sum over classes of free+alloc equals trees*TREE_FRAMES and the per-class free counts sum to the fast total, with reservations present, after drains, with offline trees and class changes.",
     note="", ref="DESIGN.md §4 C14"),
  "C15": dict(cat="exploration", tech=T_SEQ + " with offline/online/class changes (by id and by matcher) judged by observation of the tree array; plus concurrent runs with offline/online pairs (K4 reservation churn; K9: slots holding reservations of entirely free trees while other threads drain, take those trees offline and allocate through the slots)",
-    text="Offline of an unreserved entirely free tree must succeed; no allocation returns a frame of an offline tree; the fast count excludes it; online restores the counter and the requested class; a change touches exactly one matching unreserved tree or nothing.",
+    text="Offline of an unreserved entirely free tree must succeed; no allocation returns a frame of an offline tree; the fast count excludes it; online restores the counter and the requested class; a change touches exactly one matching unreserved tree or nothing. Concurrent runs: a get invoked after an offline request returned must not return a frame of that tree (event order); every tree is emptied, taken offline and probed through every slot at the end of a run; a successful compare-exchange of a tree-change call on an entry that is reserved at that moment is reported.",
     note="offline operations are only generated for entirely free trees (the case the property defines)", ref="DESIGN.md §4 C15"),
  "C17": dict(cat="exploration", tech="deterministic simulation with cold-restart fault: NvmAlloc, ZoneAlloc and a plain LLFree driven in lock-step over mmap'ed zones at several aligned bases, then recovery from the zone alone",
     text="Wrapper results equal inner results shifted by the offset; frames below the offset are rejected; no returned frame overlaps the metadata tail or header page; recover of an untouched or differently sized region fails; recover of its own instance reproduces the per-frame state.",
